@@ -50,6 +50,9 @@ def gen(rng, tier, n):
         for i in ids:
             lines.append("sub %d %d -" % (i, ids[i]))
         cases.append(lines)
+    # concurrent publishers with a live resumable subscription (implementation-side judge)
+    for _ in range(4 if tier == "quick" else 40):
+        cases.append(["kind mem", "plan - -", "racepub %d %d" % (rng.randint(2, 8), rng.choice([100, 300]))])
     return cases
 
 def nontrivial(prop, lines, impl):
